@@ -24,6 +24,8 @@ def root() -> str:
             else:
                 base = os.path.join(os.environ.get('TMPDIR', '/tmp'), 'vsym-scratch')
         _ROOT = os.path.join(base, 'p%d' % os.getpid())
+        # a killed worker with the same (reused) pid may have left its directory behind
+        shutil.rmtree(_ROOT, ignore_errors=True)
         os.makedirs(_ROOT, exist_ok=True)
         atexit.register(cleanup)
     return _ROOT
